@@ -1,0 +1,24 @@
+//go:build verif
+
+package io
+
+// Contracts for the verifier in /verif (comment-only file; no declarations).
+
+// ---- C17: JSON-safe conversion ----
+
+//@ func JsonSafeArray(vals, shiftDim) returns (result)
+//@   ndmodel locations
+//@   views unchecked
+//@   safety C17
+//@   requires vals != nil && 1 <= vals.rank && vals.rank <= 3 && 0 <= shiftDim && shiftDim < vals.rank
+//@   requires forall(k, 0, vals.rank, vals.dim(k) >= 0)
+//@   assigns nothing
+//@   fresh result
+//@   ensures [C17.json-array-length] len(result) == vals.dim(shiftDim)
+//@   loop 0 invariant shiftDim + 1 <= i && i <= max(ndims, shiftDim + 1) && ndims == vals.rank && len(to) == ndims && len(from) == ndims && len(step) == ndims && len(shape) == ndims
+//@   loop 0 invariant forall(k, 0, shiftDim + 1, to[k] == 0) && forall(k, shiftDim + 1, i, to[k] == vals.dim(k)) && forall(k, 0, ndims, from[k] == 0 && step[k] == 1)
+//@   loop 1 invariant 0 <= i && i <= length && length == vals.dim(shiftDim) && ndims == vals.rank && len(result) == length && len(to) == ndims && len(from) == ndims && len(step) == ndims
+//@   loop 1 invariant forall(k, 0, ndims, step[k] == 1) && forall(k, shiftDim + 1, ndims, to[k] == vals.dim(k) && from[k] == 0) && forall(k, 0, shiftDim, to[k] == 0 && from[k] == 0)
+
+//@ func JsonSafeValue(val) returns (r)
+//@   assigns nothing
